@@ -3,6 +3,7 @@ package main
 // SSA (go/ssa, NaiveForm) -> IL translation.
 
 import (
+	"os"
 	"fmt"
 	"go/constant"
 	"go/token"
@@ -140,6 +141,8 @@ type Trans struct {
 	freshRefs map[string]bool
 	knownNew  map[string]bool
 	atCallN   map[string]int
+	atLineDone map[*Clause]bool
+	srcLines  map[string][]string
 	lastCallScope *Scope
 	knownOld  map[string]bool
 	curBinds []*Val
@@ -787,6 +790,9 @@ func (tr *Trans) translateBody(fr *Frame) {
 }
 
 func (tr *Trans) instr(fr *Frame, ins ssa.Instruction) {
+	if fr == tr.top && tr.contract != nil && len(tr.contract.AtLines) > 0 {
+		tr.atLine(fr, ins)
+	}
 	switch x := ins.(type) {
 	case *ssa.DebugRef:
 		tr.debugRef(fr, x)
@@ -1656,4 +1662,61 @@ func (tr *Trans) checkIsolation(valT types.Type, val string, pos token.Pos, what
 		ref = "(s_arr " + val + ")"
 	}
 	tr.cur.assert(fmt.Sprintf("(or (= %s 0) (> %s epoch))", ref, ref), tr.ob("fresh", what, pos, "a stored "+tr.eng.sorts.typeName(valT)+" must be nil or allocated during this API call (no sharing with pre-existing trees)", tr.eng.propsFor(tr.name, "fresh")))
+}
+
+// atLine: checkpoint clauses `atline "text" label: cond`. The condition is asserted (and from then on assumed)
+// immediately before the first instruction, in translation order, that comes from the first source line of the
+// function which contains the text or from a later line. The text anchors the clause to a place in the source
+// (typically the comment that opens the next section); a text that no longer occurs is contract drift.
+func (tr *Trans) atLine(fr *Frame, ins ssa.Instruction) {
+	pos := ins.Pos()
+	if !pos.IsValid() || tr.cur == nil {
+		return
+	}
+	p := tr.eng.fset.Position(pos)
+	if tr.srcLines == nil {
+		tr.srcLines = map[string][]string{}
+		tr.atLineDone = map[*Clause]bool{}
+	}
+	lines, ok := tr.srcLines[p.Filename]
+	if !ok {
+		b, _ := os.ReadFile(p.Filename)
+		lines = strings.Split(string(b), "\n")
+		tr.srcLines[p.Filename] = lines
+	}
+	fstart := tr.eng.fset.Position(fr.fn.Pos()).Line
+	for _, cl := range tr.contract.AtLines {
+		if tr.atLineDone[cl] {
+			continue
+		}
+		// the anchor line: first line of the function at or after its start that contains the text
+		anchor := 0
+		for i := fstart; i <= len(lines); i++ {
+			if strings.Contains(lines[i-1], cl.Callee) {
+				anchor = i
+				break
+			}
+		}
+		if anchor == 0 {
+			tr.atLineDone[cl] = true
+			tr.eng.fatal("%s:%d: atline %q: no such source line in %s (contract drift)", tr.contract.File, cl.Line, cl.Callee, tr.name)
+			continue
+		}
+		if p.Line < anchor {
+			continue
+		}
+		tr.atLineDone[cl] = true
+		cl.Used = true
+		sc := tr.pointScope(fr, pos)
+		te, err := sc.elab(cl.E)
+		if err != nil {
+			tr.eng.fatal("%s:%d: atline %q: %v", tr.contract.File, cl.Line, cl.Callee, err)
+			continue
+		}
+		props := cl.Tags
+		if len(props) == 0 {
+			props = tr.contract.Tags
+		}
+		tr.cur.assert(te.E, tr.restrict(tr.ob("atline", cl.Name, pos, cl.Src, props), cl))
+	}
 }
